@@ -77,6 +77,8 @@ class C01System(BuilderSystem):
             ops.append(["probe", ["towards"], {"z": c, "F": 5000}])
             ops.append(["set_axis", [], {"x": 50}])
         ops.append(["move", [[b, None, c]], {}])
+        ops.append(["set_axis", [["P", b, c, a]], {}])                 # point-like forms of the axis reset
+        ops.append(["set_axis", [[c, b]], {}])
         ops.append(["!fault", ["move", [], {"x": c, "y": b}]])
         ops.append(["!fault", ["set_distance_mode", ["relative"]]])
         # free text on a motion call stays inside its comment (nothing of it moves the machine)
